@@ -105,6 +105,16 @@ CHECKS = {
         "writes before clearing; per-frame histograms are cleared before filling; values go to the nearest bin centre.",
    note="Identities of formulas in the current source. Not decided: agreement with an independent recomputation on data, the pair "
         "search (C03), bin memory safety (C13), the norm_ factors set in BeginEvaluate (2/(N1N2) vs 1/(N1N2))."),
+ "C06": dict(cat="other", ref="DESIGN.md section 4 C06",
+   technique="ordered factor-chain matching of the non-commutative matrix products on the AST, guarded-store extraction for the regularised inverse spectrum, canonical-form comparison of all row/index expressions, call-sequence checks at block boundaries, shared spline-constraint identities",
+   text="Decides the shape of the stated problems: csg_imc_solve forms A^T A, inverts its spectrum shifted by the regularisation "
+        "(pseudo-inverse below tolerance), assembles V diag V^T and returns -inverse A^T b, split by 1-based index ranges; the matrix "
+        "file is read back with the layout it was written; every csg_fmatch contribution lands in the row of its own force "
+        "component/atom/frame with Newton-3 signs and b_ uses the same rows; both least-squares variants clear their accumulators per "
+        "block; the constrained solve works in the null space of the constraints (head of Q^T x forced to zero) so constraints hold "
+        "exactly; the spline constraint rows are the C1 conditions.",
+   note="Necessary structural conditions; holding does not establish numerical accuracy or that fmatch reproduces representable force "
+        "functions on data (needs execution). Trusted: Eigen decompositions."),
 }
 NA = {
 }
